@@ -54,6 +54,33 @@ func govcRun(budget uint64, reqs []int) string {
 	return ""
 }
 
+func govcRunReuse(budget uint64, a, b, c int) string {
+	p, err := NewBucketedPool[byte](10, 100, 2, budget) // buckets 10, 20, 40, 80
+	if err != nil {
+		return ""
+	}
+	first, err := p.Get(a)
+	if err != nil {
+		return ""
+	}
+	p.Put(first)
+	if used := p.UsedBytes(); used != 0 {
+		return fmt.Sprintf("budget %d: usage is %d after Get(%d) and returning it", budget, used, a)
+	}
+	var sum uint64
+	for _, sz := range []int{b, c} {
+		x, err := p.Get(sz)
+		if err != nil {
+			continue
+		}
+		sum += uint64(cap(*x))
+		if sum > budget || p.UsedBytes() != sum {
+			return fmt.Sprintf("budget %d, history Get(%d) Put Get(%d) Get(%d): %d bytes of capacity are checked out (pool reports %d), more than the budget", budget, a, b, c, sum, p.UsedBytes())
+		}
+	}
+	return ""
+}
+
 func TestGovcReplay(t *testing.T) {
 	data, err := os.ReadFile(os.Getenv("GOVC_REPLAY_FILE"))
 	if err != nil {
@@ -80,6 +107,19 @@ func TestGovcReplay(t *testing.T) {
 			for _, b := range sizes {
 				try(budget, []int{a, b})
 				try(budget, []int{a, b, a})
+			}
+		}
+	}
+	// histories with a return in the middle: Get(a), Put it back, then Get(b), Get(c) — what was
+	// returned is handed out again, and the budget must still bound what is checked out
+	for _, budget := range []uint64{100, 120, 200, 260} {
+		for _, a := range sizes {
+			for _, b := range sizes {
+				for _, c := range sizes {
+					if m := govcRunReuse(budget, a, b, c); m != "" && len(msgs) < 3 {
+						msgs = append(msgs, m)
+					}
+				}
 			}
 		}
 	}
